@@ -45,3 +45,10 @@ func (q *Queue) VerifLen() (n int, cur int) {
 	}
 	return q.l.Len(), cur
 }
+
+// VerifDrained reports whether ReadInflight has drained the in-flight entries since Init.
+func (q *Queue) VerifDrained() bool {
+	q.cond.L.Lock()
+	defer q.cond.L.Unlock()
+	return q.inflightDrained
+}
